@@ -193,6 +193,9 @@ func runTxbuf(s *vsimcore.Sim, p vsimcore.Params) vsimcore.RunInfo {
 	wAdd := 2 + s.Choose("wadd", 6)
 	wBuf := 1 + s.Choose("wbuf", 3)
 	wReb := 1 + s.Choose("wreb", 3)
+	// a slow application: the buffer's goroutine can be held inside the user's apply function, so that
+	// other requests arrive (and wait on its request channels) while an AddTx or a Rebase is half done
+	slowApply := s.Pct("slow-apply", 50)
 	h := &hist{}
 	var info vsimcore.RunInfo
 	nextID := 0
@@ -209,7 +212,13 @@ func runTxbuf(s *vsimcore.Sim, p vsimcore.Params) vsimcore.RunInfo {
 		defer func() { gchan.SimYield = nil }()
 
 		buf := gtxbuf.New[tbState, tbTx](ctx, quietLog(),
-			func(_ context.Context, st tbState, tx tbTx) (tbState, error) { return tbApply(st, tx) },
+			func(_ context.Context, st tbState, tx tbTx) (tbState, error) {
+				if slowApply {
+					s.ParkID("txbuf", "apply", "tx")
+					s.Probe("request_processing_held_in_apply")
+				}
+				return tbApply(st, tx)
+			},
 			func(_ context.Context, reject []tbTx) func(tbTx) bool {
 				m := map[int]bool{}
 				for _, t := range reject {
